@@ -108,3 +108,859 @@ Section Mono.
     congruence.
   Qed.
 End Mono.
+
+Lemma Forall2_len : forall A B (P : A -> B -> Prop) l1 l2, Forall2 P l1 l2 -> List.length l1 = List.length l2.
+Proof. intros A B P l1 l2 H. induction H; cbn; congruence. Qed.
+
+(* ---- permutations of concatenations ---- *)
+Ltac pnorm := repeat first [rewrite <- app_assoc | rewrite app_nil_r | progress cbn [app]].
+
+(* ---- what a computation appended to the log, as erased events; unlike [LogR] this does
+   not ask the running flag to stay (start() sets it, the last completion clears it) ---- *)
+Definition LogD (E : list dev) (g g' : G) : Prop :=
+  g_ls g' = g_ls g /\ g_obs g' = g_obs g /\
+  exists evs, g_log g' = rev (flat_map (render (g_ls g) (g_obs g)) evs) ++ g_log g /\ map erase evs = E.
+
+Lemma LogD_pure : forall g g', g_ls g' = g_ls g -> g_obs g' = g_obs g -> g_log g' = g_log g -> LogD [] g g'.
+Proof. intros g g' H1 H2 H3. split; [exact H1|]. split; [exact H2|]. exists []. split; [exact H3|reflexivity]. Qed.
+
+Lemma LogD_refl : forall g, LogD [] g g.
+Proof. intro g. apply LogD_pure; reflexivity. Qed.
+
+Lemma LogD_app : forall E1 E2 a b c, LogD E1 a b -> LogD E2 b c -> LogD (E1 ++ E2) a c.
+Proof.
+  intros E1 E2 a b c (A1 & A2 & e1 & A3 & A4) (B1 & B2 & e2 & B3 & B4).
+  split; [congruence|]. split; [congruence|]. exists (e1 ++ e2). split.
+  - rewrite B3, A3, A1, A2, flat_map_app, rev_app_distr, app_assoc. reflexivity.
+  - rewrite map_app, A4, B4. reflexivity.
+Qed.
+
+Lemma LogD_of_LogR : forall evs g g', LogR evs g g' -> LogD (map erase evs) g g'.
+Proof. intros evs g g' (H1 & H2 & _ & H4). split; [exact H1|]. split; [exact H2|]. exists evs. split; [exact H4|reflexivity]. Qed.
+
+Lemma LogD_emit_gen : forall n flag g u g',
+    emit_gen n flag g = Ok (u, g') -> LogD [DN (n_kind n) (n_name n) (n_site n) (n_params n)] g g'.
+Proof.
+  intros n flag g u g' H. unfold emit_gen in H. apply log_entries_eff in H.
+  destruct H as (H1 & H2 & _ & _ & _ & _ & _ & _ & H9).
+  split; [exact H1|]. split; [exact H2|]. exists [ANot n flag (g_running g)]. split; [|reflexivity].
+  rewrite H9. cbn [flat_map render]. rewrite app_nil_r. reflexivity.
+Qed.
+
+Lemma LogD_emit : forall k nm a id c ps g u g',
+    emit (mk k nm a id c ps) g = Ok (u, g') -> LogD [DN k nm a ps] g g'.
+Proof. intros k nm a id c ps g u g' H. apply LogD_emit_gen in H. exact H. Qed.
+
+Lemma fresh_t_log : forall g id g', fresh_t g = Ok (id, g') -> LogD [] g g'.
+Proof. unfold fresh_t. intros g id g' H. inv H. apply LogD_pure; reflexivity. Qed.
+Lemma fresh_s_log : forall g id g', fresh_s g = Ok (id, g') -> LogD [] g g'.
+Proof. unfold fresh_s. intros g id g' H. inv H. apply LogD_pure; reflexivity. Qed.
+Lemma tick_ss_log : forall g k g', tick_ss g = Ok (k, g') -> LogD [] g g'.
+Proof. unfold tick_ss. intros g id g' H. inv H. apply LogD_pure; reflexivity. Qed.
+Lemma await_log : forall id g u g', await id g = Ok (u, g') -> LogD [] g g'.
+Proof. unfold await, set_awaited. intros id g u g' H. inv H. apply LogD_pure; reflexivity. Qed.
+Lemma unawait_log : forall id g u g', unawait id g = Ok (u, g') -> LogD [] g g'.
+Proof.
+  unfold unawait, set_awaited. intros id g u g' H.
+  destruct (remove_first (Nat.eqb id) (g_awaited g)); [|discriminate]. inv H. apply LogD_pure; reflexivity.
+Qed.
+Lemma set_running_log : forall b g u g', set_running b g = Ok (u, g') -> LogD [] g g'.
+Proof. unfold set_running. intros b g u g' H. inv H. apply LogD_pure; reflexivity. Qed.
+
+(* chain the facts [LogD _ g g1], [LogD _ g1 g2], ... found in the context *)
+Ltac logd :=
+  match goal with
+  | |- LogD _ ?g ?g => apply LogD_refl
+  | H : LogD ?E ?g ?g1 |- LogD _ ?g _ => refine (LogD_app E _ _ _ _ H _); logd
+  end.
+
+(* ---- the erased events a caller sees: what function 0 (registered once per kind by
+   default, never removed) is told, and the oracle queries ---- *)
+Definition dev_of_entry (e : entry) : list dev :=
+  match e with
+  | ENotif O n _ => [DN (n_kind n) (n_name n) (n_site n) (n_params n)]
+  | EQuery v _ => [DQ v]
+  | _ => []
+  end.
+Definition dev_of_log (l : list entry) : list dev := flat_map dev_of_entry l.
+Definition trace_devs (tr : list callrec) : list dev := flat_map (fun r => dev_of_log (cr_log r)) tr.
+
+Lemma dev_of_log_app : forall a b, dev_of_log (a ++ b) = dev_of_log a ++ dev_of_log b.
+Proof. intros. unfold dev_of_log. apply flat_map_app. Qed.
+
+Lemma dev_of_listeners : forall n r L,
+    dev_of_log (map (fun l => ENotif l n r) L) =
+    repeat (DN (n_kind n) (n_name n) (n_site n) (n_params n)) (count_occ Nat.eq_dec L 0).
+Proof.
+  intros n r L. induction L as [|l L IH]; [reflexivity|].
+  cbn [map dev_of_log flat_map count_occ]. fold (dev_of_log (map (fun l0 => ENotif l0 n r) L)). rewrite IH.
+  destruct l as [|l]; cbn [dev_of_entry].
+  - destruct (Nat.eq_dec 0 0); [|congruence]. reflexivity.
+  - destruct (Nat.eq_dec (S l) 0); [discriminate|]. reflexivity.
+Qed.
+
+Lemma dev_of_observers : forall k nm id flag obs,
+    dev_of_log (map (fun o => EObs o k nm id flag) obs) = [].
+Proof. intros. induction obs as [|o obs IH]; [reflexivity|]. cbn [map dev_of_log flat_map dev_of_entry app]. exact IH. Qed.
+
+Lemma dev_of_render : forall ls obs a, lst_all ls -> dev_of_log (render ls obs a) = [erase a].
+Proof.
+  intros ls obs a Hl. destruct a as [n flag r|v c]; cbn [render erase]; [|reflexivity].
+  rewrite dev_of_log_app, dev_of_listeners, dev_of_observers, (Hl (n_kind n)). reflexivity.
+Qed.
+
+Lemma dev_of_flat : forall ls obs evs, lst_all ls -> dev_of_log (flat_map (render ls obs) evs) = map erase evs.
+Proof.
+  intros ls obs evs Hl. induction evs as [|a evs IH]; [reflexivity|].
+  cbn [flat_map map]. rewrite dev_of_log_app, IH, dev_of_render by exact Hl. reflexivity.
+Qed.
+
+Lemma LogD_observe : forall E g g',
+    LogD E g g' -> g_log g = [] -> lst_all (g_ls g) -> dev_of_log (rev (g_log g')) = E.
+Proof.
+  intros E g g' (_ & _ & evs & H & <-) Hn Hl.
+  rewrite H, Hn, app_nil_r, rev_involutive. apply dev_of_flat. exact Hl.
+Qed.
+
+Lemma lst_all_next : forall ls c, lst_all ls -> lst_all (next_ls ls c).
+Proof.
+  intros ls c Hl. destruct c; cbn [next_ls]; auto.
+  destruct (existsb _ ls) eqn:Ex; [exact Hl|]. apply register_keeps; assumption.
+Qed.
+
+(* ================================================================================== *)
+(* 1. the constant oracle: guards and limits evaluate the same whenever evaluated      *)
+(* ================================================================================== *)
+Section Const.
+  Variable rho : name -> option value.
+  Notation orc := (corc rho).
+
+  Lemma eval_const : forall ops e q w q',
+      eval ops orc e q = Ok (w, q') -> forall q2, exists q2', eval ops orc e q2 = Ok (w, q2').
+  Proof.
+    intros ops. induction e as [x|b|s|v p|e IH|e IH|o l IHl r IHr]; intros q w q' H q2; cbn [eval] in *.
+    - inv H. eexists; reflexivity.
+    - inv H. eexists; reflexivity.
+    - inv H. eexists; reflexivity.
+    - unfold corc in *. destruct (rho v) as [x|]; [|discriminate].
+      destruct (resolve x p); cbn [rbind] in *; try discriminate. inv H. eexists; reflexivity.
+    - destruct (eval ops orc e q) as [[v1 k1]| | |] eqn:E1; cbn [rbind] in H; try discriminate.
+      destruct (IH _ _ _ E1 q2) as (k2 & E2). rewrite E2. cbn [rbind].
+      destruct (truthy v1); cbn [rbind] in *; try discriminate. inv H. eexists; reflexivity.
+    - eapply IH; eassumption.
+    - destruct (eval ops orc l q) as [[a k1]| | |] eqn:E1; cbn [rbind] in H; try discriminate.
+      destruct (IHl _ _ _ E1 q2) as (k1' & E1'). rewrite E1'. cbn [rbind].
+      destruct (eval ops orc r k1) as [[b k2]| | |] eqn:E2; cbn [rbind] in H; try discriminate.
+      destruct (IHr _ _ _ E2 k1') as (k2' & E2'). rewrite E2'. cbn [rbind].
+      destruct (lookup_op (op_token o) ops) as [fo|]; [|discriminate].
+      destruct (py_apply fo a b); cbn [rbind] in *; try discriminate. inv H. eexists; reflexivity.
+  Qed.
+
+  Lemma decide_const : forall ops e q b q',
+      decide ops orc e q = Ok (b, q') -> forall q2, exists q2', decide ops orc e q2 = Ok (b, q2').
+  Proof.
+    intros ops e q b q' H q2. unfold decide in *.
+    destruct (eval ops orc e q) as [[w k]| | |] eqn:E; cbn [rbind] in H; try discriminate.
+    destruct (eval_const _ _ _ _ _ E q2) as (k2 & E2). rewrite E2. cbn [rbind].
+    destruct (truthy w); cbn [rbind] in *; try discriminate. inv H. eexists; reflexivity.
+  Qed.
+
+  (* the value of a guard / of a limit, with the queries it makes *)
+  Definition cdecide (e : expr) (b : bool) : Prop :=
+    forall q, exists q', den_decide orc e q = Ok (b, map DQ (expr_vars e), q').
+  Definition climit (lim : limit) (n : Z) (d : list dev) : Prop :=
+    forall q, exists q', den_limit orc lim q = Ok (n, d, q').
+
+  Lemma cdecide_of_run : forall e ctx g b g',
+      decide_m orc e ctx g = Ok (b, g') ->
+      cdecide e b /\ exists evs, LogR evs g g' /\ map erase evs = map DQ (expr_vars e).
+  Proof.
+    intros e ctx g b g' H. destruct (den_decide_ok _ _ _ _ _ _ H) as (evs & L & D).
+    unfold den_decide in D.
+    destruct (decide expected_ops orc e (g_q g)) as [[b0 k']| | |] eqn:E; try discriminate. inv D.
+    split.
+    - intro q. unfold den_decide. destruct (decide_const _ _ _ _ _ E q) as (q' & E'). rewrite E'.
+      eexists; reflexivity.
+    - exists evs. split; [exact L|congruence].
+  Qed.
+
+  Lemma climit_of_run : forall lim ctx g n g',
+      read_limit orc lim ctx g = Ok (n, g') ->
+      exists evs, LogR evs g g' /\ climit lim n (map erase evs).
+  Proof.
+    intros lim ctx g n g' H. destruct (den_limit_ok _ _ _ _ _ _ H) as (evs & L & D).
+    exists evs. split; [exact L|]. intro q. destruct lim as [k|v p]; cbn [den_limit] in *.
+    - injection D as D1 D2 D3. rewrite <- D1, <- D2. eexists; reflexivity.
+    - unfold corc in *. destruct (rho v) as [x|]; [|discriminate].
+      destruct (resolve x p) as [[qq| | |]| | |]; try discriminate.
+      destruct (Pos.eqb (Qden qq) 1); [|discriminate].
+      injection D as D1 D2 D3. rewrite <- D1, <- D2. eexists; reflexivity.
+  Qed.
+
+  (* ================================================================================ *)
+  (* 2. the denotation as a predicate (any sufficient fuel, any query counter)         *)
+  (* ================================================================================ *)
+  Definition DS (ie : ienv) (s : xstmt) (D : list dev) : Prop :=
+    exists F, forall q, exists q', den_stmt orc F ie s q = Ok (D, q').
+  Definition DB (ie : ienv) (ss : list xstmt) (i : nat) (D : list dev) : Prop :=
+    exists F, forall q, exists q', den_block orc F ie ss i q = Ok (D, q').
+  Definition DL (l : list (ienv * xstmt)) (D : list dev) : Prop :=
+    exists F, forall q, exists q', den_list orc F l q = Ok (D, q').
+  Definition DLoop (ie : ienv) (s : xstmt) (k : nat) (D : list dev) : Prop :=
+    exists F, forall q, exists q', den_loop orc F ie s k q = Ok (D, q').
+
+  Lemma DS_service : forall ie n a ins,
+      DS ie (XService n a ins) [DN SS n a (subst_params ie ins); DN SF n a (subst_params ie ins)].
+  Proof. intros. exists 1. intro q. eexists. reflexivity. Qed.
+
+  Lemma DS_call : forall ie t a ins body D,
+      DB [] body 0 D ->
+      DS ie (XCall t a ins body) (DN TS t a (subst_params ie ins) :: D ++ [DN TF t a (subst_params ie ins)]).
+  Proof.
+    intros ie t a ins body D (F & H). exists (S F). intro q. destruct (H q) as (q' & E).
+    rewrite den_stmt_S, E. cbn [rbind]. eexists; reflexivity.
+  Qed.
+
+  Lemma DS_par : forall ie bs D, DL (map (fun b => (ie, b)) bs) D -> DS ie (XParallel bs) D.
+  Proof.
+    intros ie bs D (F & H). exists (S F). intro q. destruct (H q) as (q' & E).
+    rewrite den_stmt_S, E. eexists; reflexivity.
+  Qed.
+
+  Lemma DS_cond : forall ie e p fl b D,
+      cdecide e b -> DB ie (if b then p else fl) 0 D -> DS ie (XCond e p fl) (map DQ (expr_vars e) ++ D).
+  Proof.
+    intros ie e p fl b D C (F & H). exists (S F). intro q. destruct (C q) as (q1 & E1).
+    destruct (H q1) as (q2 & E2). rewrite den_stmt_S, E1. cbn [rbind]. rewrite E2. cbn [rbind].
+    eexists; reflexivity.
+  Qed.
+
+  Lemma DS_while : forall ie e b D, DLoop ie (XWhile e b) 0 D -> DS ie (XWhile e b) D.
+  Proof.
+    intros ie e b D (F & H). exists (S F). intro q. destruct (H q) as (q' & E).
+    rewrite den_stmt_S, E. eexists; reflexivity.
+  Qed.
+
+  Lemma DS_count : forall ie v lim b D, DLoop ie (XCount v lim b) 0 D -> DS ie (XCount v lim b) D.
+  Proof.
+    intros ie v lim b D (F & H). exists (S F). intro q. destruct (H q) as (q' & E).
+    rewrite den_stmt_S, E. eexists; reflexivity.
+  Qed.
+
+  Lemma DS_parloop : forall ie v lim c n d D,
+      climit lim n d -> DL (insts ie v c (Z.to_nat n)) D -> DS ie (XParLoop v lim c) (d ++ D).
+  Proof.
+    intros ie v lim c n d D C (F & H). exists (S F). intro q. destruct (C q) as (q1 & E1).
+    destruct (H q1) as (q2 & E2). rewrite den_stmt_S, E1. cbn [rbind]. rewrite E2. cbn [rbind].
+    eexists; reflexivity.
+  Qed.
+
+  Lemma DB_nil : forall ie ss i, nth_error ss i = None -> DB ie ss i [].
+  Proof. intros ie ss i N. exists 1. intro q. rewrite den_block_S, N. eexists; reflexivity. Qed.
+
+  Lemma DB_cons : forall ie ss i s D1 D2,
+      nth_error ss i = Some s -> DS ie s D1 -> DB ie ss (S i) D2 -> DB ie ss i (D1 ++ D2).
+  Proof.
+    intros ie ss i s D1 D2 N (F1 & H1) (F2 & H2). exists (S (Nat.max F1 F2)). intro q.
+    destruct (H1 q) as (q1 & E1). destruct (H2 q1) as (q2 & E2).
+    apply (den_stmt_le _ _ (Nat.max F1 F2)) in E1; [|apply Nat.le_max_l].
+    apply (den_block_le _ _ (Nat.max F1 F2)) in E2; [|apply Nat.le_max_r].
+    rewrite den_block_S, N, E1. cbn [rbind]. rewrite E2. cbn [rbind]. eexists; reflexivity.
+  Qed.
+
+  Lemma DL_nil : DL [] [].
+  Proof. exists 1. intro q. eexists; reflexivity. Qed.
+
+  Lemma DL_cons : forall ie b r D1 D2, DS ie b D1 -> DL r D2 -> DL ((ie, b) :: r) (D1 ++ D2).
+  Proof.
+    intros ie b r D1 D2 (F1 & H1) (F2 & H2). exists (S (Nat.max F1 F2)). intro q.
+    destruct (H1 q) as (q1 & E1). destruct (H2 q1) as (q2 & E2).
+    apply (den_stmt_le _ _ (Nat.max F1 F2)) in E1; [|apply Nat.le_max_l].
+    apply (den_list_le _ _ (Nat.max F1 F2)) in E2; [|apply Nat.le_max_r].
+    rewrite den_list_S, E1. cbn [rbind]. rewrite E2. cbn [rbind]. eexists; reflexivity.
+  Qed.
+
+  Lemma DLoop_while_false : forall ie e body k,
+      cdecide e false -> DLoop ie (XWhile e body) k (map DQ (expr_vars e)).
+  Proof.
+    intros ie e body k C. exists 1. intro q. destruct (C q) as (q1 & E1).
+    rewrite den_loop_S, E1. cbn [rbind]. eexists; reflexivity.
+  Qed.
+
+  Lemma DLoop_while_true : forall ie e body k D1 D2,
+      cdecide e true -> DB ie body 0 D1 -> DLoop ie (XWhile e body) (S k) D2 ->
+      DLoop ie (XWhile e body) k (map DQ (expr_vars e) ++ D1 ++ D2).
+  Proof.
+    intros ie e body k D1 D2 C (F1 & H1) (F2 & H2). exists (S (Nat.max F1 F2)). intro q.
+    destruct (C q) as (q1 & E0). destruct (H1 q1) as (q2 & E1). destruct (H2 q2) as (q3 & E2).
+    apply (den_block_le _ _ (Nat.max F1 F2)) in E1; [|apply Nat.le_max_l].
+    apply (den_loop_le _ _ (Nat.max F1 F2)) in E2; [|apply Nat.le_max_r].
+    rewrite den_loop_S, E0. cbn [rbind]. rewrite E1. cbn [rbind]. rewrite E2. cbn [rbind].
+    eexists; reflexivity.
+  Qed.
+
+  Lemma DLoop_count_stop : forall ie v lim body k n d,
+      climit lim n d -> (Z.of_nat k <? n)%Z = false -> DLoop ie (XCount v lim body) k d.
+  Proof.
+    intros ie v lim body k n d C Hk. exists 1. intro q. destruct (C q) as (q1 & E1).
+    rewrite den_loop_S, E1. cbn [rbind]. rewrite Hk. eexists; reflexivity.
+  Qed.
+
+  Lemma DLoop_count_go : forall ie v lim body k n d D1 D2,
+      climit lim n d -> (Z.of_nat k <? n)%Z = true ->
+      DB ((v, k) :: ie) body 0 D1 -> DLoop ie (XCount v lim body) (S k) D2 ->
+      DLoop ie (XCount v lim body) k (d ++ D1 ++ D2).
+  Proof.
+    intros ie v lim body k n d D1 D2 C Hk (F1 & H1) (F2 & H2). exists (S (Nat.max F1 F2)). intro q.
+    destruct (C q) as (q1 & E0). destruct (H1 q1) as (q2 & E1). destruct (H2 q2) as (q3 & E2).
+    apply (den_block_le _ _ (Nat.max F1 F2)) in E1; [|apply Nat.le_max_l].
+    apply (den_loop_le _ _ (Nat.max F1 F2)) in E2; [|apply Nat.le_max_r].
+    rewrite den_loop_S, E0. cbn [rbind]. rewrite Hk, E1. cbn [rbind]. rewrite E2. cbn [rbind].
+    eexists; reflexivity.
+  Qed.
+
+  (* the predicates are functional *)
+  Lemma DB_fun : forall ie ss i D1 D2, DB ie ss i D1 -> DB ie ss i D2 -> D1 = D2.
+  Proof.
+    intros ie ss i D1 D2 (F1 & H1) (F2 & H2). destruct (H1 0) as (q1 & E1). destruct (H2 0) as (q2 & E2).
+    pose proof (den_block_det _ _ _ _ _ _ _ _ _ E1 E2) as X. congruence.
+  Qed.
+  Lemma DS_fun : forall ie s D1 D2, DS ie s D1 -> DS ie s D2 -> D1 = D2.
+  Proof.
+    intros ie s D1 D2 (F1 & H1) (F2 & H2). destruct (H1 0) as (q1 & E1). destruct (H2 0) as (q2 & E2).
+    pose proof (den_stmt_det _ _ _ _ _ _ _ _ E1 E2) as X. congruence.
+  Qed.
+
+  (* ================================================================================ *)
+  (* 3. the residual denotation: the events still to come from a state                 *)
+  (* ================================================================================ *)
+  Inductive RS : ienv -> xstmt -> rst -> list dev -> Prop :=
+  | RS_done : forall ie s, RS ie s RDone []
+  | RS_await : forall ie n a ins id,
+      RS ie (XService n a ins) (RAwait id) [DN SF n a (subst_params ie ins)]
+  | RS_call : forall ie t a ins body cid i st R,
+      RB [] body i st R ->
+      RS ie (XCall t a ins body) (RCall cid i st) (R ++ [DN TF t a (subst_params ie ins)])
+  | RS_par : forall ie bs sts R,
+      RL (map (fun b => (ie, b)) bs) sts R -> RS ie (XParallel bs) (RPar sts) R
+  | RS_cond : forall ie e p fl (b : bool) i st R,
+      RB ie (if b then p else fl) i st R -> RS ie (XCond e p fl) (RCond b i st) R
+  | RS_while : forall ie e body k i st R D,
+      RB ie body i st R -> DLoop ie (XWhile e body) (S k) D ->
+      RS ie (XWhile e body) (RLoop k i st) (R ++ D)
+  | RS_count : forall ie v lim body k i st R D,
+      RB ((v, k) :: ie) body i st R -> DLoop ie (XCount v lim body) (S k) D ->
+      RS ie (XCount v lim body) (RLoop k i st) (R ++ D)
+  | RS_parloop : forall ie v lim c sts R,
+      RL (insts ie v c (List.length sts)) sts R -> RS ie (XParLoop v lim c) (RParLoop sts) R
+  (* waiting inside statement i of a block: its residual, then the statements after it *)
+  with RB : ienv -> list xstmt -> nat -> rst -> list dev -> Prop :=
+  | RB_intro : forall ie ss i s st R D,
+      nth_error ss i = Some s -> RS ie s st R -> DB ie ss (S i) D -> RB ie ss i st (R ++ D)
+  (* branches of a Parallel / instances of a parallel loop: the residuals, concatenated *)
+  with RL : list (ienv * xstmt) -> list rst -> list dev -> Prop :=
+  | RL_nil : RL [] [] []
+  | RL_cons : forall ie b r st sts R1 R2,
+      RS ie b st R1 -> RL r sts R2 -> RL ((ie, b) :: r) (st :: sts) (R1 ++ R2).
+
+  Definition RO (ie : ienv) (ss : list xstmt) (r : option (nat * rst)) (R : list dev) : Prop :=
+    match r with None => R = [] | Some (i, st) => RB ie ss i st R end.
+
+  Lemma RL_all_done : forall l sts, wf_list l sts -> all_done sts = true -> RL l sts [].
+  Proof.
+    intros l sts H. induction H as [|[ie b] st l sts Hw Hl IH]; intro D.
+    - constructor.
+    - cbn [all_done] in D. apply andb_true_iff in D. destruct D as [D1 D2]. destruct st; try discriminate.
+      change (@nil dev) with (@nil dev ++ []). constructor; [constructor|apply IH; exact D2].
+  Qed.
+
+  Lemma is_done_RDone : forall st, is_done st = true -> st = RDone.
+  Proof. destruct st; cbn; intros; try discriminate; reflexivity. Qed.
+
+  Section Run.
+  Variable imm : nat -> bool.
+
+  Lemma service_conf : forall n at_ ins ctx ie g st g',
+      (id <- fresh_s ;;
+       await id ;;;
+       emit (mk SS n at_ id (Some ctx) (subst_params ie ins)) ;;;
+       k <- tick_ss ;;
+       if imm k
+       then unawait id ;;; emit (mk SF n at_ id (Some ctx) (subst_params ie ins)) ;;; ret RDone
+       else ret (RAwait id)) g = Ok (st, g') ->
+      (st = RDone /\ LogD [DN SS n at_ (subst_params ie ins); DN SF n at_ (subst_params ie ins)] g g')
+      \/ (exists id, st = RAwait id /\ LogD [DN SS n at_ (subst_params ie ins)] g g').
+  Proof.
+    intros n at_ ins ctx ie g st g' H.
+    mstep as id g1 E1. apply fresh_s_log in E1.
+    mstep as u2 g2 E2. apply await_log in E2.
+    mstep as u3 g3 E3. apply LogD_emit in E3.
+    mstep as k g4 E4. apply tick_ss_log in E4.
+    destruct (imm k).
+    - mstep as u5 g5 E5. apply unawait_log in E5.
+      mstep as u6 g6 E6. apply LogD_emit in E6. mstep.
+      left. split; [reflexivity|].
+      change [DN SS n at_ (subst_params ie ins); DN SF n at_ (subst_params ie ins)]
+        with ([] ++ [] ++ [DN SS n at_ (subst_params ie ins)] ++ [] ++ [] ++ [DN SF n at_ (subst_params ie ins)] ++ []).
+      logd.
+    - mstep. right. exists id. split; [reflexivity|].
+      change [DN SS n at_ (subst_params ie ins)] with ([] ++ [] ++ [DN SS n at_ (subst_params ie ins)] ++ [] ++ []).
+      logd.
+  Qed.
+
+  (* ================================================================================ *)
+  (* 4. the start family: emitted now + residual afterwards = denotation               *)
+  (* ================================================================================ *)
+  Lemma start_conf : forall f,
+      (forall ctx ie s g st g',
+          start_stmt orc imm f ctx ie s g = Ok (st, g') ->
+          exists E, LogD E g g' /\
+                    forall R, RS ie s st R -> exists D, DS ie s D /\ Permutation D (E ++ R)) /\
+      (forall ctx ie ss i g r g',
+          run_block orc imm f ctx ie ss i g = Ok (r, g') ->
+          exists E, LogD E g g' /\
+                    forall R, RO ie ss r R -> exists D, DB ie ss i D /\ Permutation D (E ++ R)) /\
+      (forall ctx l g sts g',
+          start_list orc imm f ctx l g = Ok (sts, g') ->
+          exists E, LogD E g g' /\
+                    forall R, RL l sts R -> exists D, DL l D /\ Permutation D (E ++ R)) /\
+      (forall ctx ie s k g st g',
+          loop_test orc imm f ctx ie s k g = Ok (st, g') ->
+          exists E, LogD E g g' /\
+                    forall R, RS ie s st R -> exists D, DLoop ie s k D /\ Permutation D (E ++ R)).
+  Proof.
+    induction f as [|f IH]; [split; [|split; [|split]]; intros; discriminate|].
+    destruct IH as (IHs & IHb & IHl & IHt).
+    split; [|split; [|split]].
+    - (* start_stmt *)
+      intros ctx ie s g st g' H. cbn [start_stmt] in H.
+      destruct s as [n at_ ins|t at_ ins body|bs|e p fl|e b|v lim b|v lim c].
+      + (* service *)
+        apply service_conf in H. destruct H as [[-> L]|(id & -> & L)].
+        * eexists. split; [exact L|]. intros R HR. inv HR.
+          eexists. split; [apply DS_service|]. rewrite app_nil_r. apply Permutation_refl.
+        * eexists. split; [exact L|]. intros R HR. inv HR.
+          eexists. split; [apply DS_service|]. apply Permutation_refl.
+      + (* task call *)
+        mstep as id g1 E1. apply fresh_t_log in E1.
+        mstep as u2 g2 E2. apply LogD_emit in E2.
+        mstep as r g3 E3. destruct (IHb _ _ _ _ _ _ _ E3) as (Eb & Lb & Kb).
+        destruct r as [[i sti]|].
+        * mstep. eexists. split; [logd|]. intros R HR. inv HR.
+          match goal with HB : RB _ _ _ _ _ |- _ => destruct (Kb _ HB) as (Db & HDb & HP) end.
+          eexists. split; [apply DS_call; exact HDb|]. rewrite HP. pnorm. apply Permutation_refl.
+        * mstep as u4 g4 E4. apply LogD_emit in E4. mstep.
+          eexists. split; [logd|]. intros R HR. inv HR.
+          destruct (Kb [] eq_refl) as (Db & HDb & HP).
+          eexists. split; [apply DS_call; exact HDb|]. rewrite HP. pnorm. apply Permutation_refl.
+      + (* parallel *)
+        mstep as sts g1 E1.
+        pose proof (proj1 (proj2 (proj2 (start_wf orc imm f))) _ _ _ _ _ E1) as W.
+        destruct (IHl _ _ _ _ _ E1) as (El & Ll & Kl).
+        destruct (all_done sts) eqn:Dn; mstep.
+        * eexists. split; [exact Ll|]. intros R HR. inv HR.
+          destruct (Kl [] (RL_all_done _ _ W Dn)) as (D & HD & HP).
+          eexists. split; [apply DS_par; exact HD|exact HP].
+        * eexists. split; [exact Ll|]. intros R HR. inv HR.
+          match goal with HB : RL _ _ _ |- _ => destruct (Kl _ HB) as (D & HD & HP) end.
+          eexists. split; [apply DS_par; exact HD|exact HP].
+      + (* condition *)
+        mstep as bb g1 E1. apply cdecide_of_run in E1. destruct E1 as (C & evs & L1 & Q1).
+        apply LogD_of_LogR in L1. rewrite Q1 in L1.
+        mstep as r g2 E2. destruct (IHb _ _ _ _ _ _ _ E2) as (Eb & Lb & Kb).
+        destruct r as [[i sti]|]; mstep.
+        * eexists. split; [logd|]. intros R HR. inv HR.
+          match goal with HB : RB _ _ _ _ _ |- _ => destruct (Kb _ HB) as (Db & HDb & HP) end.
+          eexists. split; [eapply DS_cond; [exact C|exact HDb]|]. rewrite HP. pnorm. apply Permutation_refl.
+        * eexists. split; [logd|]. intros R HR. inv HR.
+          destruct (Kb [] eq_refl) as (Db & HDb & HP).
+          eexists. split; [eapply DS_cond; [exact C|exact HDb]|]. rewrite HP. pnorm. apply Permutation_refl.
+      + (* while *)
+        destruct (IHt _ _ _ _ _ _ _ H) as (Et & Lt & Kt).
+        eexists. split; [exact Lt|]. intros R HR. destruct (Kt _ HR) as (D & HD & HP).
+        eexists. split; [apply DS_while; exact HD|exact HP].
+      + (* counting loop *)
+        destruct (IHt _ _ _ _ _ _ _ H) as (Et & Lt & Kt).
+        eexists. split; [exact Lt|]. intros R HR. destruct (Kt _ HR) as (D & HD & HP).
+        eexists. split; [apply DS_count; exact HD|exact HP].
+      + (* parallel loop *)
+        mstep as n g1 E1. apply climit_of_run in E1. destruct E1 as (evs & L1 & C).
+        apply LogD_of_LogR in L1.
+        mstep as sts g2 E2.
+        pose proof (proj1 (proj2 (proj2 (start_wf orc imm f))) _ _ _ _ _ E2) as W.
+        assert (Hlen : List.length sts = Z.to_nat n).
+        { apply Forall2_len in W. unfold insts in W. rewrite map_length, seq_length in W. congruence. }
+        destruct (IHl _ _ _ _ _ E2) as (El & Ll & Kl).
+        destruct (all_done sts) eqn:Dn; mstep.
+        * eexists. split; [logd|]. intros R HR. inv HR.
+          destruct (Kl [] (RL_all_done _ _ W Dn)) as (D & HD & HP).
+          eexists. split; [eapply DS_parloop; [exact C|exact HD]|]. rewrite HP. pnorm. apply Permutation_refl.
+        * eexists. split; [logd|]. intros R HR. inv HR.
+          match goal with HB : RL _ _ _ |- _ => rewrite Hlen in HB; destruct (Kl _ HB) as (D & HD & HP) end.
+          eexists. split; [eapply DS_parloop; [exact C|exact HD]|]. rewrite HP. pnorm. apply Permutation_refl.
+    - (* run_block *)
+      intros ctx ie ss i g r g' H. cbn [run_block] in H.
+      destruct (nth_error ss i) as [s1|] eqn:N.
+      + mstep as st g1 E1. destruct (IHs _ _ _ _ _ _ E1) as (E1' & L1 & K1).
+        destruct (is_done st) eqn:Dn.
+        * apply is_done_RDone in Dn. subst st.
+          destruct (IHb _ _ _ _ _ _ _ H) as (E2' & L2 & K2).
+          eexists. split; [logd|]. intros R HR.
+          destruct (K1 [] (RS_done _ _)) as (D1 & HD1 & HP1).
+          destruct (K2 _ HR) as (D2 & HD2 & HP2).
+          eexists. split; [eapply DB_cons; eassumption|]. rewrite HP1, HP2. pnorm. apply Permutation_refl.
+        * mstep. eexists. split; [exact L1|]. intros R HR. cbn [RO] in HR. inv HR.
+          match goal with HN : nth_error _ _ = Some _ |- _ => rewrite N in HN; inv HN end.
+          match goal with HB : RS _ _ _ _ |- _ => destruct (K1 _ HB) as (D1 & HD1 & HP1) end.
+          eexists. split; [eapply DB_cons; eassumption|]. rewrite HP1. pnorm. apply Permutation_refl.
+      + mstep. exists []. split; [apply LogD_refl|]. intros R HR. cbn [RO] in HR. subst R.
+        exists []. split; [apply DB_nil; exact N|apply Permutation_refl].
+    - (* start_list *)
+      intros ctx l g sts g' H. cbn [start_list] in H.
+      destruct l as [|[ie b] r].
+      + mstep. exists []. split; [apply LogD_refl|]. intros R HR. inv HR.
+        exists []. split; [apply DL_nil|apply Permutation_refl].
+      + mstep as st g1 E1. destruct (IHs _ _ _ _ _ _ E1) as (E1' & L1 & K1).
+        mstep as sts1 g2 E2. destruct (IHl _ _ _ _ _ E2) as (E2' & L2 & K2).
+        mstep. eexists. split; [logd|]. intros R HR. inv HR.
+        match goal with HB : RS _ _ _ _ |- _ => destruct (K1 _ HB) as (D1 & HD1 & HP1) end.
+        match goal with HB : RL _ _ _ |- _ => destruct (K2 _ HB) as (D2 & HD2 & HP2) end.
+        eexists. split; [apply DL_cons; eassumption|]. rewrite HP1, HP2. pnorm.
+        apply Permutation_app_head. apply Permutation_app_swap_app.
+    - (* loop_test *)
+      intros ctx ie s k g st g' H. cbn [loop_test] in H.
+      destruct s as [n at_ ins|t at_ ins body|bs|e p fl|e b|v lim b|v lim c]; try discriminate.
+      + (* while *)
+        mstep as bb g1 E1. apply cdecide_of_run in E1. destruct E1 as (C & evs & L1 & Q1).
+        apply LogD_of_LogR in L1. rewrite Q1 in L1.
+        destruct bb.
+        * mstep as r g2 E2. destruct (IHb _ _ _ _ _ _ _ E2) as (Eb & Lb & Kb).
+          destruct r as [[i sti]|].
+          -- mstep. eexists. split; [logd|]. intros R HR. inv HR.
+             match goal with HB : RB _ _ _ _ _ |- _ => destruct (Kb _ HB) as (Db & HDb & HP) end.
+             eexists. split; [eapply DLoop_while_true; eassumption|]. rewrite HP. pnorm. apply Permutation_refl.
+          -- destruct (IHt _ _ _ _ _ _ _ H) as (Et & Lt & Kt).
+             eexists. split; [logd|]. intros R HR.
+             destruct (Kb [] eq_refl) as (Db & HDb & HP).
+             destruct (Kt _ HR) as (Dt & HDt & HPt).
+             eexists. split; [eapply DLoop_while_true; eassumption|]. rewrite HP, HPt. pnorm. apply Permutation_refl.
+        * mstep. eexists. split; [logd|]. intros R HR. inv HR.
+          eexists. split; [apply DLoop_while_false; exact C|]. pnorm. apply Permutation_refl.
+      + (* counting loop *)
+        mstep as n g1 E1. apply climit_of_run in E1. destruct E1 as (evs & L1 & C).
+        apply LogD_of_LogR in L1.
+        destruct (Z.of_nat k <? n)%Z eqn:Hk.
+        * mstep as r g2 E2. destruct (IHb _ _ _ _ _ _ _ E2) as (Eb & Lb & Kb).
+          destruct r as [[i sti]|].
+          -- mstep. eexists. split; [logd|]. intros R HR. inv HR.
+             match goal with HB : RB _ _ _ _ _ |- _ => destruct (Kb _ HB) as (Db & HDb & HP) end.
+             eexists. split; [eapply DLoop_count_go; eassumption|]. rewrite HP. pnorm. apply Permutation_refl.
+          -- destruct (IHt _ _ _ _ _ _ _ H) as (Et & Lt & Kt).
+             eexists. split; [logd|]. intros R HR.
+             destruct (Kb [] eq_refl) as (Db & HDb & HP).
+             destruct (Kt _ HR) as (Dt & HDt & HPt).
+             eexists. split; [eapply DLoop_count_go; eassumption|]. rewrite HP, HPt. pnorm. apply Permutation_refl.
+        * mstep. eexists. split; [logd|]. intros R HR. inv HR.
+          eexists. split; [eapply DLoop_count_stop; eassumption|]. pnorm. apply Permutation_refl.
+  Qed.
+
+  (* ================================================================================ *)
+  (* 5. the deliver family: emitted now + residual afterwards = residual before        *)
+  (* ================================================================================ *)
+  Lemma deliver_none_same : forall f ctx ie s st id g g',
+      deliver orc imm f ctx ie s st id g = Ok (None, g') -> g' = g.
+  Proof. intros f ctx ie s st id g g' H. exact (proj1 (deliver_eff orc imm f) _ _ _ _ _ _ _ _ H). Qed.
+
+  Lemma deliver_conf : forall f,
+      (forall ctx ie s st id g st' g',
+          deliver orc imm f ctx ie s st id g = Ok (Some st', g') -> wf s st ->
+          exists E, LogD E g g' /\
+                    forall R', RS ie s st' R' -> exists R, RS ie s st R /\ Permutation R (E ++ R')) /\
+      (forall ctx ie ss i sti id g r g',
+          deliver_block orc imm f ctx ie ss i sti id g = Ok (Some r, g') -> wf_block ss i sti ->
+          exists E, LogD E g g' /\
+                    forall R', RO ie ss r R' -> exists R, RB ie ss i sti R /\ Permutation R (E ++ R')) /\
+      (forall ctx l sts id g sts' g',
+          deliver_list orc imm f ctx l sts id g = Ok (Some sts', g') -> wf_list l sts ->
+          exists E, LogD E g g' /\
+                    forall R', RL l sts' R' -> exists R, RL l sts R /\ Permutation R (E ++ R')).
+  Proof.
+    induction f as [|f IH]; [split; [|split]; intros; discriminate|].
+    destruct IH as (IHd & IHb & IHl).
+    split; [|split].
+    - (* deliver *)
+      intros ctx ie s st id g st' g' H Hw. cbn [deliver] in H.
+      destruct s as [n at_ ins|t at_ ins body|bs|e p fl|e b|v lim b|v lim c];
+        destruct st as [|id'|cid i sti|sts|bb i sti|k i sti|sts];
+        try (mstep; discriminate).
+      + (* service *)
+        destruct (Nat.eqb id id'); [|mstep; discriminate].
+        mstep as u g1 E1. apply LogD_emit in E1. mstep. subst.
+        eexists. split; [exact E1|]. intros R' HR. inv HR.
+        eexists. split; [constructor|]. pnorm. apply Permutation_refl.
+      + (* call *)
+        inv Hw.
+        mstep as r1 g1 E1. destruct r1 as [r1|]; [|mstep; discriminate].
+        assert (Wb : wf_block body i sti) by (eexists; split; eassumption).
+        destruct (IHb _ _ _ _ _ _ _ _ _ E1 Wb) as (Eb & Lb & Kb).
+        destruct r1 as [[j stj]|].
+        * mstep. subst.
+          eexists. split; [exact Lb|]. intros R' HR. inv HR.
+          match goal with HB : RB _ _ _ _ _ |- _ => destruct (Kb _ HB) as (Rb & HRb & HP) end.
+          eexists. split; [constructor; exact HRb|]. rewrite HP. pnorm. apply Permutation_refl.
+        * mstep as u g2 E2. apply LogD_emit in E2. mstep. subst.
+          eexists. split; [logd|]. intros R' HR. inv HR.
+          destruct (Kb [] eq_refl) as (Rb & HRb & HP).
+          eexists. split; [constructor; exact HRb|]. rewrite HP. pnorm. apply Permutation_refl.
+      + (* parallel *)
+        inv Hw.
+        match goal with HF : Forall2 wf _ _ |- _ => pose proof (wf_list_map_intro ie _ _ HF) as Wl end.
+        mstep as r1 g1 E1. destruct r1 as [sts'|]; [|mstep; discriminate].
+        pose proof (proj2 (proj2 (deliver_wf orc imm f)) _ _ _ _ _ _ _ E1 Wl) as Wl'. cbn [wf_lo] in Wl'.
+        destruct (IHl _ _ _ _ _ _ _ E1 Wl) as (El & Ll & Kl).
+        destruct (all_done sts') eqn:Dn; mstep; subst.
+        * eexists. split; [exact Ll|]. intros R' HR. inv HR.
+          destruct (Kl [] (RL_all_done _ _ Wl' Dn)) as (R & HR & HP).
+          eexists. split; [constructor; exact HR|exact HP].
+        * eexists. split; [exact Ll|]. intros R' HR. inv HR.
+          match goal with HB : RL _ _ _ |- _ => destruct (Kl _ HB) as (R & HR & HP) end.
+          eexists. split; [constructor; exact HR|exact HP].
+      + (* condition *)
+        inv Hw.
+        mstep as r1 g1 E1. destruct r1 as [r1|]; [|mstep; discriminate].
+        assert (Wb : wf_block (if bb then p else fl) i sti) by (eexists; split; eassumption).
+        destruct (IHb _ _ _ _ _ _ _ _ _ E1 Wb) as (Eb & Lb & Kb).
+        destruct r1 as [[j stj]|]; mstep; subst.
+        * eexists. split; [exact Lb|]. intros R' HR. inv HR.
+          match goal with HB : RB _ _ _ _ _ |- _ => destruct (Kb _ HB) as (Rb & HRb & HP) end.
+          eexists. split; [constructor; exact HRb|exact HP].
+        * eexists. split; [exact Lb|]. intros R' HR. inv HR.
+          destruct (Kb [] eq_refl) as (Rb & HRb & HP).
+          eexists. split; [constructor; exact HRb|exact HP].
+      + (* while *)
+        inv Hw.
+        mstep as r1 g1 E1. destruct r1 as [r1|]; [|mstep; discriminate].
+        assert (Wb : wf_block b i sti) by (eexists; split; eassumption).
+        destruct (IHb _ _ _ _ _ _ _ _ _ E1 Wb) as (Eb & Lb & Kb).
+        destruct r1 as [[j stj]|].
+        * mstep. subst.
+          eexists. split; [exact Lb|]. intros R' HR. inv HR.
+          match goal with HB : RB _ _ _ _ _ |- _ => destruct (Kb _ HB) as (Rb & HRb & HP) end.
+          eexists. split; [constructor; eassumption|]. rewrite HP. pnorm. apply Permutation_refl.
+        * mstep as st2 g2 E2. destruct (proj2 (proj2 (proj2 (start_conf f))) _ _ _ _ _ _ _ E2) as (Et & Lt & Kt).
+          mstep. subst.
+          eexists. split; [logd|]. intros R' HR.
+          destruct (Kb [] eq_refl) as (Rb & HRb & HP).
+          destruct (Kt _ HR) as (Dt & HDt & HPt).
+          eexists. split; [constructor; eassumption|]. rewrite HP, HPt. pnorm. apply Permutation_refl.
+      + (* counting loop *)
+        inv Hw.
+        mstep as r1 g1 E1. destruct r1 as [r1|]; [|mstep; discriminate].
+        assert (Wb : wf_block b i sti) by (eexists; split; eassumption).
+        destruct (IHb _ _ _ _ _ _ _ _ _ E1 Wb) as (Eb & Lb & Kb).
+        destruct r1 as [[j stj]|].
+        * mstep. subst.
+          eexists. split; [exact Lb|]. intros R' HR. inv HR.
+          match goal with HB : RB _ _ _ _ _ |- _ => destruct (Kb _ HB) as (Rb & HRb & HP) end.
+          eexists. split; [constructor; eassumption|]. rewrite HP. pnorm. apply Permutation_refl.
+        * mstep as st2 g2 E2. destruct (proj2 (proj2 (proj2 (start_conf f))) _ _ _ _ _ _ _ E2) as (Et & Lt & Kt).
+          mstep. subst.
+          eexists. split; [logd|]. intros R' HR.
+          destruct (Kb [] eq_refl) as (Rb & HRb & HP).
+          destruct (Kt _ HR) as (Dt & HDt & HPt).
+          eexists. split; [constructor; eassumption|]. rewrite HP, HPt. pnorm. apply Permutation_refl.
+      + (* parallel loop *)
+        inv Hw.
+        match goal with HF : Forall (wf c) _ |- _ => pose proof (wf_list_insts ie v c _ HF) as Wl end.
+        mstep as r1 g1 E1. destruct r1 as [sts'|]; [|mstep; discriminate].
+        pose proof (proj2 (proj2 (deliver_wf orc imm f)) _ _ _ _ _ _ _ E1 Wl) as Wl'. cbn [wf_lo] in Wl'.
+        assert (Hlen : List.length sts' = List.length sts).
+        { apply Forall2_len in Wl. apply Forall2_len in Wl'. congruence. }
+        destruct (IHl _ _ _ _ _ _ _ E1 Wl) as (El & Ll & Kl).
+        destruct (all_done sts') eqn:Dn; mstep; subst.
+        * eexists. split; [exact Ll|]. intros R' HR. inv HR.
+          destruct (Kl [] (RL_all_done _ _ Wl' Dn)) as (R & HR & HP).
+          eexists. split; [constructor; exact HR|exact HP].
+        * eexists. split; [exact Ll|]. intros R' HR. inv HR.
+          match goal with HB : RL _ _ _ |- _ => rewrite Hlen in HB; destruct (Kl _ HB) as (R & HR & HP) end.
+          eexists. split; [constructor; exact HR|exact HP].
+    - (* deliver_block *)
+      intros ctx ie ss i sti id g r g' H (s1 & N & W). cbn [deliver_block] in H. rewrite N in H.
+      mstep as r1 g1 E1. destruct r1 as [st'|]; [|mstep; discriminate].
+      destruct (IHd _ _ _ _ _ _ _ _ E1 W) as (E1' & L1 & K1).
+      destruct (is_done st') eqn:Dn.
+      + apply is_done_RDone in Dn. subst st'.
+        mstep as r' g2 E2. destruct (proj1 (proj2 (start_conf f)) _ _ _ _ _ _ _ E2) as (E2' & L2 & K2).
+        mstep. subst.
+        eexists. split; [logd|]. intros R' HR.
+        destruct (K1 [] (RS_done _ _)) as (R1 & HR1 & HP1).
+        destruct (K2 _ HR) as (D2 & HD2 & HP2).
+        eexists. split; [econstructor; eassumption|]. rewrite HP1, HP2. pnorm. apply Permutation_refl.
+      + mstep. subst.
+        eexists. split; [exact L1|]. intros R' HR. cbn [RO] in HR. inv HR.
+        match goal with HN : nth_error _ _ = Some _ |- _ => rewrite N in HN; inv HN end.
+        match goal with HB : RS _ _ _ _ |- _ => destruct (K1 _ HB) as (R1 & HR1 & HP1) end.
+        eexists. split; [econstructor; eassumption|]. rewrite HP1. pnorm. apply Permutation_refl.
+    - (* deliver_list *)
+      intros ctx l sts id g sts' g' H Hw. cbn [deliver_list] in H.
+      destruct l as [|[ie b] br]; [mstep; discriminate|].
+      destruct sts as [|st sr]; [mstep; discriminate|]. inv Hw.
+      match goal with HW : wf (snd _) _ |- _ => cbn [snd] in HW end.
+      mstep as r1 g1 E1. destruct r1 as [st'|].
+      + mstep. subst.
+        match goal with HW : wf b st |- _ => destruct (IHd _ _ _ _ _ _ _ _ E1 HW) as (E1' & L1 & K1) end.
+        eexists. split; [exact L1|]. intros R' HR. inv HR.
+        match goal with HB : RS _ _ _ _ |- _ => destruct (K1 _ HB) as (Q1 & HQ1 & HP1) end.
+        eexists. split; [constructor; eassumption|]. rewrite HP1. pnorm. apply Permutation_refl.
+      + apply deliver_none_same in E1. subst g1.
+        mstep as r2 g2 E2. destruct r2 as [sr'|]; [|mstep; discriminate].
+        mstep. subst.
+        match goal with HW : Forall2 _ br sr |- _ => destruct (IHl _ _ _ _ _ _ _ E2 HW) as (E2' & L2 & K2) end.
+        eexists. split; [exact L2|]. intros R' HR. inv HR.
+        match goal with HB : RL _ _ _ |- _ => destruct (K2 _ HB) as (Q2 & HQ2 & HP2) end.
+        eexists. split; [constructor; eassumption|]. rewrite HP2. pnorm. apply Permutation_app_swap_app.
+  Qed.
+
+  (* ================================================================================ *)
+  (* 6. the API: every call emits what leaves the residual of the whole order          *)
+  (* ================================================================================ *)
+  Variable body : list xstmt.
+
+  Definition prodTS : dev := DN TS production_task root_site [].
+  Definition prodTF : dev := DN TF production_task root_site [].
+
+  (* what is still to come from a scheduler state *)
+  Definition RRoot (r : option rst) (R : list dev) : Prop :=
+    match r with
+    | None => exists mid, DB [] body 0 mid /\ R = prodTS :: mid ++ [prodTF]
+    | Some RDone => R = []
+    | Some (RCall cid i st) => exists Rb, RB [] body i st Rb /\ R = Rb ++ [prodTF]
+    | Some _ => False
+    end.
+
+  Lemma finish_root_log : forall g u g', finish_root g = Ok (u, g') -> LogD [prodTF] g g'.
+  Proof.
+    intros g u g' H. unfold finish_root in H. mstep as u1 g1 E1. apply LogD_emit_gen in E1.
+    apply set_running_log in H. change [prodTF] with ([prodTF] ++ []). eapply LogD_app; eassumption.
+  Qed.
+
+  Lemma api_conf : forall f s c b s',
+      PInv body s -> lst_all (g_ls (sc_g s)) ->
+      api_call orc imm f body s c = Ok (b, s') ->
+      forall R', RRoot (sc_root s') R' ->
+                 exists R, RRoot (sc_root s) R /\ Permutation R (dev_of_log (cr_log (observe b s')) ++ R').
+  Proof.
+    intros f s c b s' HI Hl H.
+    assert (Q : forall b0 g r R',
+               g_log g = [] -> RRoot r R' ->
+               exists R, RRoot r R /\
+                         Permutation R (dev_of_log (cr_log (observe b0 {| sc_g := g; sc_root := r |})) ++ R')).
+    { intros b0 g r R' Hn HR. exists R'. split; [exact HR|].
+      unfold observe. cbn [cr_log sc_g]. rewrite Hn. apply Permutation_refl. }
+    destruct c as [|id| |k l|o|o]; cbn [api_call] in H.
+    - (* start *)
+      destruct (sc_root s) as [r0|] eqn:Hroot.
+      + inv H. intros R' HR. eapply Q; [reflexivity|exact HR].
+      + match type of H with match ?X with _ => _ end = _ => destruct X as [[st g']| | |] eqn:E end;
+          try discriminate. inv H.
+        set (g0 := clear_log (sc_g s)) in *.
+        mstep as u1 g1 E1. apply set_running_log in E1.
+        mstep as id g2 E2. apply fresh_t_log in E2.
+        mstep as u3 g3 E3. apply LogD_emit in E3. fold prodTS in E3.
+        mstep as r g4 E4. destruct (proj1 (proj2 (start_conf f)) _ _ _ _ _ _ _ E4) as (Eb & Lb & Kb).
+        destruct r as [[i sti]|].
+        * mstep.
+          assert (L : LogD ([] ++ [] ++ [prodTS] ++ Eb ++ []) g0 g4) by logd.
+          apply LogD_observe in L; [|reflexivity|exact Hl].
+          intros R' HR. cbn [sc_root RRoot] in HR. destruct HR as (Rb & HRb & ->).
+          destruct (Kb _ HRb) as (Db & HDb & HP).
+          eexists. split; [exists Db; split; [exact HDb|reflexivity]|].
+          unfold observe. cbn [cr_log sc_g]. rewrite L, HP. pnorm. apply Permutation_refl.
+        * mstep as u5 g5 E5. apply finish_root_log in E5. mstep.
+          assert (L : LogD ([] ++ [] ++ [prodTS] ++ Eb ++ [prodTF] ++ []) g0 g5) by logd.
+          apply LogD_observe in L; [|reflexivity|exact Hl].
+          intros R' HR. cbn [sc_root RRoot] in HR. subst R'.
+          destruct (Kb [] eq_refl) as (Db & HDb & HP).
+          eexists. split; [exists Db; split; [exact HDb|reflexivity]|].
+          unfold observe. cbn [cr_log sc_g]. rewrite L, HP. pnorm. apply Permutation_refl.
+    - (* completion *)
+      change (g_awaited (clear_log (sc_g s))) with (g_awaited (sc_g s)) in H.
+      destruct (mem id (g_awaited (sc_g s))).
+      + destruct (sc_root s) as [[|id'|cid i sti|sts|bb i sti|k i sti|sts]|] eqn:Hroot; try discriminate.
+        match type of H with match ?X with _ => _ end = _ => destruct X as [[st g']| | |] eqn:E end;
+          try discriminate. inv H.
+        destruct HI as [_ HR0]. rewrite Hroot in HR0. destruct HR0 as [_ HW].
+        set (g0 := clear_log (sc_g s)) in *.
+        mstep as u1 g1 E1. apply unawait_log in E1.
+        mstep as r g2 E2. destruct r as [r|]; [|discriminate].
+        destruct (proj1 (proj2 (deliver_conf f)) _ _ _ _ _ _ _ _ _ E2 HW) as (Eb & Lb & Kb).
+        destruct r as [[j st']|].
+        * mstep.
+          assert (L : LogD ([] ++ Eb ++ []) g0 g2) by logd.
+          apply LogD_observe in L; [|reflexivity|exact Hl].
+          intros R' HR. cbn [sc_root RRoot] in HR. destruct HR as (Rb' & HRb' & ->).
+          destruct (Kb _ HRb') as (Rb & HRb & HP).
+          eexists. split; [exists Rb; split; [exact HRb|reflexivity]|].
+          unfold observe. cbn [cr_log sc_g]. rewrite L, HP. pnorm. apply Permutation_refl.
+        * mstep as u5 g5 E5. apply finish_root_log in E5. mstep.
+          assert (L : LogD ([] ++ Eb ++ [prodTF] ++ []) g0 g5) by logd.
+          apply LogD_observe in L; [|reflexivity|exact Hl].
+          intros R' HR. cbn [sc_root RRoot] in HR. subst R'.
+          destruct (Kb [] eq_refl) as (Rb & HRb & HP).
+          eexists. split; [exists Rb; split; [exact HRb|reflexivity]|].
+          unfold observe. cbn [cr_log sc_g]. rewrite L, HP. pnorm. apply Permutation_refl.
+      + inv H. intros R' HR. eapply Q; [reflexivity|exact HR].
+    - inv H. intros R' HR. eapply Q; [reflexivity|exact HR].
+    - destruct (existsb _ (g_ls (clear_log (sc_g s)))); inv H.
+      + intros R' HR. eapply Q; [reflexivity|exact HR].
+      + intros R' HR. eapply Q; [reflexivity|exact HR].
+    - inv H. intros R' HR. eapply Q; [reflexivity|exact HR].
+    - destruct (remove_first (Nat.eqb o) (g_obs (clear_log (sc_g s)))) as [l|]; [|discriminate]. inv H.
+      intros R' HR. eapply Q; [reflexivity|exact HR].
+  Qed.
+
+  (* once the order is complete nothing changes any more *)
+  Lemma done_stays : forall f s c b s',
+      PInv body s -> root_done (sc_root s) = true ->
+      api_call orc imm f body s c = Ok (b, s') -> root_done (sc_root s') = true.
+  Proof.
+    intros f s c b s' [_ HR] Hd H.
+    destruct (sc_root s) as [[|id'|cid i sti|sts|bb i sti|k i sti|sts]|] eqn:Hroot; try discriminate.
+    destruct c as [|id| |k l|o|o]; cbn [api_call] in H; rewrite ?Hroot in H.
+    - inv H. reflexivity.
+    - change (g_awaited (clear_log (sc_g s))) with (g_awaited (sc_g s)) in H. rewrite HR in H.
+      cbn [mem] in H. inv H. reflexivity.
+    - inv H. reflexivity.
+    - destruct (existsb _ (g_ls (clear_log (sc_g s)))); inv H; reflexivity.
+    - inv H. reflexivity.
+    - destruct (remove_first (Nat.eqb o) (g_obs (clear_log (sc_g s)))); [|discriminate]. inv H. reflexivity.
+  Qed.
+
+  Lemma script_conf : forall f cs s tr,
+      PInv body s -> lst_all (g_ls (sc_g s)) ->
+      run_script orc imm f body s cs = Ok tr ->
+      (root_done (sc_root s) = true \/ exists r, In r tr /\ cr_final r = true) ->
+      exists R, RRoot (sc_root s) R /\ Permutation R (trace_devs tr).
+  Proof.
+    intros f cs. induction cs as [|c cs IH]; intros s tr HI Hl H Hfin; cbn [run_script] in H.
+    - inv H. destruct Hfin as [Hd|(r & [] & _)].
+      destruct (sc_root s) as [[|id'|cid i sti|sts|bb i sti|k i sti|sts]|]; try discriminate.
+      exists []. split; [reflexivity|apply Permutation_refl].
+    - destruct (api_call orc imm f body s c) as [[b s']| | |] eqn:E; try discriminate.
+      cbn [rbind] in H.
+      destruct (run_script orc imm f body s' cs) as [t| | |] eqn:E2; try discriminate.
+      cbn [rbind] in H. inv H.
+      pose proof (api_pinv _ _ _ _ _ _ _ _ HI E) as HI'.
+      assert (Hl' : lst_all (g_ls (sc_g s'))).
+      { rewrite (proj1 (proj2 (api_shape _ _ _ _ _ _ _ _ E))). apply lst_all_next. exact Hl. }
+      assert (Hfin' : root_done (sc_root s') = true \/ exists r, In r t /\ cr_final r = true).
+      { destruct Hfin as [Hd|(r & [<-|Hin] & Hf)].
+        - left. exact (done_stays _ _ _ _ _ HI Hd E).
+        - left. exact Hf.
+        - right. exists r. split; assumption. }
+      destruct (IH _ _ HI' Hl' E2 Hfin') as (R' & HR' & HP').
+      destruct (api_conf _ _ _ _ _ HI Hl E _ HR') as (R & HR & HP).
+      exists R. split; [exact HR|]. rewrite HP, HP'. apply Permutation_refl.
+  Qed.
+  End Run.
+End Const.
